@@ -6,6 +6,15 @@ From AV Require Import Index.IndexModel.
 Import ListNotations.
 Open Scope Z_scope.
 
+(* the order oracle: how a hash map / hash set happens to be iterated or drained *)
+Definition oracle : Type := forall A : Type, list A -> list A.
+Definition permuting (sh : oracle) : Prop := forall A (l : list A), Permutation (sh A l) l.
+
+Lemma sh_rev_permuting : permuting sh_rev.
+Proof. intros A l. unfold sh_rev. apply Permutation_sym, Permutation_rev. Qed.
+Lemma sh_id_permuting : permuting sh_id.
+Proof. intros A l. reflexivity. Qed.
+
 (* ------------------------------------------------------------------ generic list facts *)
 Lemma NoDup_app_disj' {A} (a b : list A) : NoDup a -> NoDup b -> (forall x, In x a -> ~ In x b) -> NoDup (a ++ b).
 Proof.
@@ -950,3 +959,124 @@ Section OracleLat.
         * intros [[v H]|[v H]]; exists v; apply I; rewrite in_abs_sh; auto.
   Qed.
 End OracleLat.
+
+(* ================================================================== whole histories (all operation sequences) *)
+(* The write operations of a history over the three versions (slot 0 = new, 1 = delta, 2 = total), applied to the
+   concrete RelIndexType1 values and to the abstract multimaps; the two stay related, so every lookup / iteration
+   made after ANY sequence of inserts, moves (either direction, either side larger) and merges answers from the
+   abstract content. *)
+Inductive wop : Type := WIns (s k v : Z) | WMove (a b : Z) | WMerge.
+
+Definition wop_ok (o : wop) : Prop :=
+  match o with
+  | WIns s _ _ => 0 <= s <= 2
+  | WMove a b => 0 <= a <= 2 /\ 0 <= b <= 2 /\ a <> b
+  | WMerge => True
+  end.
+
+Definition mm_apply (o : wop) (st : mmap * mmap * mmap) : mmap * mmap * mmap :=
+  match o with
+  | WIns s k v => slot_set s (mm_insert k v (slot_get s st)) st
+  | WMove a b => slot_set b (mm_union (slot_get b st) (slot_get a st)) (slot_set a mm_empty st)
+  | WMerge => let '(n, d, t) := st in (mm_empty, n, mm_union t d)
+  end.
+
+Definition to_op (o : wop) : op :=
+  match o with WIns s k v => OIns s k v | WMove a b => OMove a b | WMerge => OMerge end.
+
+Section History.
+  Variable sh : forall A : Type, list A -> list A.
+  Hypothesis sh_perm : forall A (l : list A), Permutation (sh A l) l.
+
+  Definition hv_apply (o : wop) (st : hvec * hvec * hvec) : hvec * hvec * hvec :=
+    match o with
+    | WIns s k v => slot_set s (hv_insert k v (slot_get s st)) st
+    | WMove a b => let '(x, y) := hv_move sh (slot_get a st) (slot_get b st) in slot_set b y (slot_set a x st)
+    | WMerge => let '(n, d, t) := st in merge3 (hv_move sh) n d t
+    end.
+
+  (* hv_apply is the state transition of the history interpreter that the tie evaluates *)
+  Lemma run_hv_write o r (st : hvec * hvec * hvec) : wop_ok o -> run (I_hv sh) (to_op o :: r) st = run (I_hv sh) r (hv_apply o st).
+  Proof.
+    destruct o as [s k v|a b|]; intros Hok; cbn [to_op run hv_apply I_hv i_ins i_move St ok2].
+    - reflexivity.
+    - destruct Hok as [_ [_ Hne]]. destruct (Z.eqb_spec a b) as [E|_]; [contradiction|].
+      destruct (hv_move sh (slot_get a st) (slot_get b st)) as [x y]. reflexivity.
+    - destruct st as [[n d] t]. unfold merge3r, merge3, ok2. cbn [bind]. destruct (hv_move sh d t) as [d' t']. reflexivity.
+  Qed.
+
+  Definition rel1 (c : hvec) (a : mmap) : Prop := hv_wf c /\ Permutation (hv_abs c) a.
+  Definition rel3 (c : hvec * hvec * hvec) (a : mmap * mmap * mmap) : Prop :=
+    let '(c0, c1, c2) := c in let '(a0, a1, a2) := a in rel1 c0 a0 /\ rel1 c1 a1 /\ rel1 c2 a2.
+
+  Lemma slot_cases s : 0 <= s <= 2 -> s = 0 \/ s = 1 \/ s = 2.
+  Proof. lia. Qed.
+
+  Lemma rel3_get s c a : rel3 c a -> rel1 (slot_get s c) (slot_get s a).
+  Proof.
+    destruct c as [[c0 c1] c2], a as [[a0 a1] a2]. intros [R0 [R1 R2]]. unfold slot_get.
+    destruct (s =? 0); [exact R0|]. destruct (s =? 1); [exact R1|exact R2].
+  Qed.
+
+  Lemma rel3_set s x y c a : rel3 c a -> rel1 x y -> rel3 (slot_set s x c) (slot_set s y a).
+  Proof.
+    destruct c as [[c0 c1] c2], a as [[a0 a1] a2]. intros [R0 [R1 R2]] R. unfold slot_set.
+    destruct (s =? 0); [exact (conj R (conj R1 R2))|]. destruct (s =? 1); [exact (conj R0 (conj R R2))|exact (conj R0 (conj R1 R))].
+  Qed.
+
+  Lemma slot_get_set_other {S} a b (x : S) st : 0 <= a <= 2 -> 0 <= b <= 2 -> a <> b -> slot_get b (slot_set a x st) = slot_get b st.
+  Proof.
+    intros Ha Hb Hne. destruct st as [[s0 s1] s2]. unfold slot_get, slot_set.
+    destruct (slot_cases a Ha) as [-> | [-> | ->]], (slot_cases b Hb) as [-> | [-> | ->]]; try congruence; reflexivity.
+  Qed.
+
+  Lemma hv_apply_rel o c a : wop_ok o -> rel3 c a -> rel3 (hv_apply o c) (mm_apply o a).
+  Proof.
+    destruct o as [s k v|x y|]; intros Hok R; cbn [hv_apply mm_apply].
+    - apply rel3_set; [exact R|]. destruct (rel3_get s c a R) as [W P]. split; [now apply hv_insert_wf|].
+      rewrite hv_insert_abs. unfold mm_insert. now apply perm_skip.
+    - destruct Hok as [Hx [Hy Hne]]. destruct (rel3_get x c a R) as [Wx Px], (rel3_get y c a R) as [Wy Py].
+      pose proof (hv_move_spec sh sh_perm (slot_get x c) (slot_get y c)) as [M1 [M2 M3]].
+      destruct (hv_move sh (slot_get x c) (slot_get y c)) as [x' y']. cbn [fst snd] in *. subst x'.
+      apply rel3_set.
+      + apply rel3_set; [exact R|]. split; [split; constructor|reflexivity].
+      + split; [now apply M3|]. rewrite M2. unfold mm_union. now apply Permutation_app.
+    - destruct c as [[c0 c1] c2], a as [[a0 a1] a2]. destruct R as [R0 [[W1 P1] [W2 P2]]].
+      pose proof (hv_merge_spec sh sh_perm c0 c1 c2) as M. destruct (merge3 (hv_move sh) c0 c1 c2) as [[n' d'] t'].
+      destruct M as [-> [-> [M3 M4]]]. split; [split; [split; constructor|reflexivity]|]. split; [exact R0|].
+      split; [now apply M4|]. rewrite M3. unfold mm_union. now apply Permutation_app.
+  Qed.
+
+  Definition hv_run_writes (ops : list wop) : hvec * hvec * hvec := fold_left (fun st o => hv_apply o st) ops ([], [], []).
+  Definition mm_run_writes (ops : list wop) : mmap * mmap * mmap := fold_left (fun st o => mm_apply o st) ops ([], [], []).
+
+  Theorem hv_history ops : Forall wop_ok ops -> rel3 (hv_run_writes ops) (mm_run_writes ops).
+  Proof.
+    unfold hv_run_writes, mm_run_writes.
+    assert (G : forall c a, rel3 c a -> Forall wop_ok ops ->
+                rel3 (fold_left (fun st o => hv_apply o st) ops c) (fold_left (fun st o => mm_apply o st) ops a)).
+    { induction ops as [|o ops IH]; intros c a R F; [exact R|]. inversion F; subst. cbn [fold_left]. apply IH; [|assumption].
+      now apply hv_apply_rel. }
+    intros F. apply G; [|exact F]. repeat split; constructor.
+  Qed.
+
+  (* consequently: after any history, index_get on any version answers exactly the abstract content *)
+  Corollary hv_history_lookup ops s k : Forall wop_ok ops ->
+    match hv_get k (slot_get s (hv_run_writes ops)) with
+    | Some vs => Permutation vs (mm_lookup k (slot_get s (mm_run_writes ops))) /\ vs <> []
+    | None => mm_lookup k (slot_get s (mm_run_writes ops)) = []
+    end.
+  Proof.
+    intros F. destruct (rel3_get s _ _ (hv_history ops F)) as [W P]. pose proof (hv_get_spec k _ W) as S.
+    destruct (hv_get k (slot_get s (hv_run_writes ops))) as [vs|].
+    - destruct S as [-> Hn]. split; [now apply mm_lookup_perm|exact Hn].
+    - apply Permutation_nil. rewrite <- S. apply Permutation_sym. now apply mm_lookup_perm.
+  Qed.
+
+  (* the interpreter evaluated by the tie runs exactly these transitions *)
+  Lemma run_hv_writes ops r : Forall wop_ok ops -> forall st : hvec * hvec * hvec,
+    run (I_hv sh) (map to_op ops ++ r) st = run (I_hv sh) r (fold_left (fun st o => hv_apply o st) ops st).
+  Proof.
+    induction 1 as [|o ops Ho _ IH]; intros st; [reflexivity|]. cbn [map app fold_left]. rewrite run_hv_write by exact Ho. apply IH.
+  Qed.
+End History.
